@@ -574,6 +574,13 @@ func (c *glCtx) callMulti(call *ast.CallExpr, n int) []string {
 		parts = append(parts, c.exprAs(a, sig.Params().At(i).Type()))
 	}
 	nres := resultCount(sig)
+	if glErrData[callee.spec.lean] {
+		// the callee returns its error as data
+		if !c.errData {
+			c.fail(call, "call of the errors-as-data function %s outside an errors-as-data function", callee.spec.lean)
+		}
+		nres = sig.Results().Len()
+	}
 	extra := 0
 	if callee.mutRecv {
 		extra++
@@ -783,6 +790,33 @@ func (c *glCtx) stdlib(qn string, call *ast.CallExpr, n int) ([]string, bool) {
 		c.emit("let %s := %s (Go.len %s) %s", t, rd, buf, off)
 		c.store(call.Args[0], fmt.Sprintf("(%s.1 ++ (%s).drop %s.1.length)", t, buf, t))
 		return []string{fmt.Sprintf("(Go.len %s.1)", t), t + ".2"}, true
+	case "errors.New", "fmt.Errorf":
+		if !c.errData {
+			return nil, false
+		}
+		tag := "error"
+		if tv := c.p.TypesInfo.Types[call.Args[0]]; tv.Value != nil && tv.Value.Kind() == constant.String {
+			tag = constant.StringVal(tv.Value)
+		}
+		if qn == "fmt.Errorf" && strings.Contains(tag, "%w") {
+			// exactly one %w operand: errors.Is sees through the wrapper, so the class of the wrapped error is kept
+			var wrapped []string
+			for _, a := range call.Args[1:] {
+				if isErrorType(c.typeOf(a)) {
+					wrapped = append(wrapped, c.expr(a))
+				}
+			}
+			if len(wrapped) != 1 || strings.Count(tag, "%w") != 1 {
+				c.fail(call, "fmt.Errorf with %%w: expected exactly one error operand")
+			}
+			return []string{fmt.Sprintf("(Go.Error.wrap %q %s)", tag, wrapped[0])}, true
+		}
+		return []string{fmt.Sprintf("(Go.Error.other %q)", tag)}, true
+	case "errors.Is":
+		if !c.errData {
+			return nil, false
+		}
+		return []string{fmt.Sprintf("(Go.Error.is %s %s)", c.expr(call.Args[0]), c.expr(call.Args[1]))}, true
 	case "bytes.NewReader":
 		return []string{fmt.Sprintf("(Go.BytesReader.mk %s 0)", c.expr(call.Args[0]))}, true
 	case "bytes.Reader.Len":
